@@ -239,10 +239,10 @@ def normalize_url(
         string: The normalized url.
 
     """
-    original_url_arg = url
-
     if infer_redirection:
         url = resolve(url)
+
+    original_url_arg = url
 
     url = CONTROL_CHARS_RE.sub("", url)
     url = url.strip()
